@@ -27,7 +27,7 @@ func init() {
 		Run: func(w *mc.W, u int) {
 			unit := c03Units(w.Tier)[u]
 			st := &c03State{}
-			var hist byteHist
+			hist := &byteHistory
 			unit.Each(func(b []byte) bool {
 				hist.begin(w, b, unit.Name)
 				c03Check(w, st, b, unit.Name)
@@ -85,7 +85,7 @@ func c03Check(w *mc.W, st *c03State, b []byte, unit string) {
 		return
 	}
 	p := st.ps.Parse(b)
-	histOK = p.MetaOK
+	setHist(p.MetaOK, p.HasVB, p.HasPal, p.Reason)
 	implOK := err == nil
 	if implOK != p.OK {
 		if implOK {
